@@ -506,6 +506,38 @@ def run_case(ctx, harness, case, orders):
     return res, None
 
 
+def child_lists(dump):
+    """child name sequences of every directory of an implementation dump (harness format), as driver lines"""
+    pm = parse_model_dump(dump)
+    if pm is None:
+        return []
+    kids = {}
+    for n in pm[0]:
+        if n["path"] == "-":
+            continue
+        b = bytes.fromhex(n["path"])
+        parent, _, name = b.rpartition(b"/")
+        kids.setdefault(parent, []).append(name)
+    return ["mon-sorted " + " ".join(tok(x) for x in v) for v in kids.values() if len(v) > 1]
+
+
+def monitor_sorted(ctx, case, res, counters):
+    """specification clause evaluated on the implementation's behaviour: every directory the real code built is
+    strictly sorted in strcmp order (Sqfs.FsTree.SortedNames), whatever order the entries arrived in"""
+    lines = []
+    for x in res:
+        lines += child_lists(x[1])
+    if not lines:
+        return
+    out = ctx.driver(["c11"], "\n".join(lines) + "\n")
+    counters["monitor_lists"] = counters.get("monitor_lists", 0) + len(lines)
+    bad = [l for l, o in zip(lines, out) if o != "1"]
+    if bad and counters.get("monitor_bad", 0) < 3:
+        counters["monitor_bad"] = counters.get("monitor_bad", 0) + 1
+        ctx.violation("unsorted:%s" % vlib.sha(bad[0])[:10], "the real scan path built a directory whose children are not strictly sorted by strcmp: %s" % bad[0][:300],
+                      {"case": case.describe(), "orders": [x[0] for x in res], "child_list": bad[0], "level": "monitor"})
+
+
 def nontrivial(dump):
     return dump.startswith("ok") and dump.count(" N ") >= 4
 
@@ -838,6 +870,7 @@ def run(ctx):
                           {"case": case.describe(), "orders": orders, "stderr": err, "tree": listing(case.tree.root)})
             return
         classify(ctx, case, res, facts, tag, counters)
+        monitor_sorted(ctx, case, res, counters)
         for x in res:
             if x[1].startswith("err"):
                 hist["err_results"] += 1
@@ -944,6 +977,9 @@ def run(ctx):
         "rule": "distinct (result dump, served readdir orders) pairs whose scan succeeded with at least 4 tree nodes",
         "samples": samples,
         "disagreements_checked": counters["d16"] + counters["mismatch"],
+        "spec_monitor": {"predicate": "Sqfs.FsTree.SortedNames on every child list of every tree the real code built",
+                         "lists_checked": counters.get("monitor_lists", 0), "violations": counters.get("monitor_bad", 0)},
+        "known_finding_cases": counters["d16"], "tool_runs": counters["tool_runs"],
         "histogram": hist,
         "orders_per_case": n_orders,
         "input_distribution": "seeded random directory trees under ctx.scratch: 4..400 entries, depth <= 6, names from a pool with shared "
